@@ -1,4 +1,8 @@
-package main
+//go:build verif
+
+// Package lhlib holds the stateless entry points into LuaHelper (parser, annotation parser) shared by
+// the executor child and the in-process native fuzz targets. It needs the verif build tag (hooks).
+package lhlib
 
 import (
 	"fmt"
@@ -7,6 +11,7 @@ import (
 	"luahelper-lsp/langserver/check/annotation/annotateast"
 	"luahelper-lsp/langserver/check/annotation/annotateparser"
 	"luahelper-lsp/langserver/check/compiler/lexer"
+	"luahelper-lsp/langserver/check/compiler/parser"
 
 	"verif/proto"
 )
@@ -124,9 +129,9 @@ func dumpState(s annotateast.AnnotateState) (dump string, types []annotateast.Ty
 	return fmt.Sprintf("(%T)", s), nil
 }
 
-// runAnnot parses each line on its own. A line is given as it appears after the leading "--" of the
+// RunAnnot parses each line on its own. A line is given as it appears after the leading "--" of the
 // comment, e.g. "-@type number | string @note".
-func runAnnot(req *proto.Request) (resp proto.Response) {
+func RunAnnot(req *proto.Request) (resp proto.Response) {
 	for i, ln := range req.Lines {
 		ci := &lexer.CommentInfo{ShortFlag: true, HeadFlag: true}
 		ci.LineVec = append(ci.LineVec, lexer.CommentLine{Str: ln, Line: i + 1, Col: 2})
@@ -146,6 +151,20 @@ func runAnnot(req *proto.Request) (resp proto.Response) {
 		}
 		resp.Annot = append(resp.Annot, al)
 	}
+	resp.OK = true
+	return
+}
+
+// RunParse returns the error list of the Lua parser for a text (the list that becomes the type-1
+// diagnostics) and the internal faults its recover() swallowed (verif hook).
+func RunParse(req *proto.Request) (resp proto.Response) {
+	p := parser.CreateParser(req.Text, "verif.lua")
+	_, _, errList := p.BeginAnalyze()
+	for _, e := range errList {
+		resp.ParseErrs = append(resp.ParseErrs, proto.ParseErr{
+			SL: e.Loc.StartLine, SC: e.Loc.StartColumn, EL: e.Loc.EndLine, EC: e.Loc.EndColumn, Msg: e.ErrStr})
+	}
+	resp.Recovered = parser.VerifTakeRecovered()
 	resp.OK = true
 	return
 }
